@@ -11,10 +11,19 @@ One case per input line:
 VAL  = null | INT | {"s": STR} | [VAL…] | {"d": [[STR, VAL]…]} | {"n": [[STR, VAL]…]};  TREE = {"d": [[STR, VAL]…]}
 Output: {"model": VAL, "ok": BOOL, "ref": VAL, "domain": BOOL, "guard": BOOL}  — the model pipeline's namespace, its
 acceptance, `refFold` over the flattened sources, whether the case satisfies the hypotheses `wfParser`/`srcWf`/`treeOk` of
-the theorems of Props/C04, and whether the guard `envPlain` of C04_order holds at every non-config key.  Scalars are opaque to the model: ints travel as `atom (2*i)`, strings as `atom (2*code+1)`.
+the theorems of Props/C04, and whether the guard `envPlain` of C04_order holds at every non-config key.
+A case with "method": "tree" is a HISTORY ON A PARSER TREE:
+  {"method": "tree", "parser": ROOT PARSER (default_env / os_default_env: construction time), "shape": {"flag": BOOL, "subs": [[NAME, SHAPE]…]},
+   "setters": [[[NAME…], STR|null, BOOL]…]  (path of the parser whose `default_env` is assigned, JSONARGPARSE_DEFAULT_ENV then, value),
+   "path": [NAME…] (chosen subcommands), "levels": [{"name": NAME, "parser": {"args": […]}, "argv": […]}…] (below the root, in order),
+   "argv": root's items, "env": …, "call": …}
+Output: {"levels": [VAL…], "flags": [BOOL…], "ok": BOOL, "ref": [VAL…], "domain": BOOL, "uniform": BOOL, "guard": BOOL}: the namespace of every
+level of the path (model), the flags the model's setter leaves along the path, and the per-level reference fold with the
+environment read iff the ROOT call reads it.  Scalars are opaque to the model: ints travel as `atom (2*i)`, strings as `atom (2*code+1)`.
 -/
 import Lean.Data.Json
 import Jap.Core.Sources
+import Jap.Core.SourcesSub
 
 open Lean Jap.NS Jap.Src
 
@@ -189,13 +198,61 @@ def runCase (j : Json) : Except String Json := do
   pure (Json.mkObj [("model", vToJson (.ns cfg)), ("ok", .bool (itemsOk && valid p cfg)),
                     ("ref", vToJson (.ns (refFold asg []))), ("domain", .bool inDomain), ("guard", .bool guard)])
 
+partial def shapeOfJson (j : Json) : PT :=
+  let f := match j.getObjVal? "flag" with
+    | .ok (.bool b) => b
+    | _ => false
+  .node f ((arrOf j "subs").filterMap (fun e => match e with
+    | .arr #[.str n, t] => some (n, shapeOfJson t)
+    | _ => none))
+
+def runTree (j : Json) : Except String Json := do
+  let p0 ← parserOfJson (← j.getObjVal? "parser")
+  let env ← envOfJson (arrOf j "env")
+  let argv0 ← (arrOf j "argv").mapM itemOfJson
+  let call ← match j.getObjVal? "call" with
+    | .ok c => callOfJson c
+    | .error _ => pure {}
+  let shape := match j.getObjVal? "shape" with
+    | .ok sh => shapeOfJson sh
+    | .error _ => PT.node false []
+  let setters ← (arrOf j "setters").mapM (fun e => match e with
+    | .arr #[path, os, .bool b] => pure (strList path, (match os with | .str s => some s | _ => none), b)
+    | _ => throw "bad setter")
+  let path := match j.getObjVal? "path" with
+    | .ok pth => strList pth
+    | .error _ => []
+  let below ← (arrOf j "levels").mapM (fun l => do
+    let name ← (← l.getObjVal? "name").getStr?
+    let p ← parserOfJson (← l.getObjVal? "parser")
+    let argv ← (arrOf l "argv").mapM itemOfJson
+    pure ({ name := name, p := p, src := { files := [], env := env, argv := argv } } : Level))
+  let root : Level := { name := "", p := p0, src := { files := [], env := env, argv := argv0 } }
+  let lv := root :: chainPrefixes p0 below
+  let tree := runSetters setters (build p0.osDefaultEnv p0.defaultEnv shape)
+  let flags := flagsOn path tree
+  let flagged := flagLevels lv flags
+  let res := parseTree call tree path lv
+  let b := match flagged with
+    | L :: _ => envRead L.p call.envArg
+    | [] => false
+  let callB : Call := { call with envArg := some b }
+  let ok := (flagged.zip res).all (fun x => x.1.src.argv.all (itemOk x.1.p) && valid x.1.p x.2)
+  let dom := flagged.all (fun L => wfParser L.p && srcWfC L.p L.src call && L.src.argv.all (itemOk L.p))
+  let uni := flagged.all (fun L => envRead L.p call.envArg == b)
+  let guard := flagged.all (fun L => !(call.defaults && b) ||
+    L.p.args.all (fun a => a.kind == .config || envPlain L.p (environOf L.src call) a.dest))
+  pure (Json.mkObj [("levels", .arr (res.map (fun c => vToJson (.ns c))).toArray), ("flags", .arr (flags.map Json.bool).toArray),
+                    ("ok", .bool ok), ("ref", .arr (flagged.map (fun L => vToJson (.ns (refFold (asgAllC L.p L.src callB) [])))).toArray),
+                    ("domain", .bool dom), ("uniform", .bool uni), ("guard", .bool guard)])
+
 partial def loop (h : IO.FS.Stream) (out : IO.FS.Stream) : IO Unit := do
   let line ← h.getLine
   if line.isEmpty then return ()
   match Json.parse line with
   | .error e => out.putStrLn (Json.mkObj [("bad-json", .str e)]).compress
   | .ok j =>
-    match runCase j with
+    match (if (j.getObjVal? "method").toOption == some (Json.str "tree") then runTree j else runCase j) with
     | .ok r => out.putStrLn r.compress
     | .error e => out.putStrLn (Json.mkObj [("bad-case", .str e)]).compress
   loop h out
